@@ -22,7 +22,8 @@ from vplib import *
 
 PROP = "C12"
 KNOWN_ORDER = "index-order-by-name"
-QUICK_STATES = 1000
+KNOWN_STALE = "stale-converter-output-after-interrupted-import"
+QUICK_STATES = 800
 
 
 def run_dir():
@@ -88,6 +89,24 @@ def scen_tags():
         {"op": "idle"}]}
 
 
+def scen_converters():
+    """Converter output (> 4 KiB per stream) cached while imports extend streams; captures under both
+    accepted file name extensions."""
+    return {"name": "converters", "converters": ["ca", "cb"], "steps": [
+        {"op": "pcap", "name": "a.pcapng", "packets": [pkt(1000, 0, "foo"), pkt(1001, 1, "bar"), pkt(1002, 2, "baz")]},
+        {"op": "idle"},
+        {"op": "add", "name": "tag/a", "color": "red", "def": "cport:1000:1002"},
+        {"op": "upd", "name": "tag/a", "conv": ["ca"]},
+        {"op": "idle"},
+        {"op": "pcap", "name": "b.pcap", "packets": [pkt(1000, 5, " MORE"), pkt(1003, 6, "qux")]},
+        {"op": "idle"},
+        {"op": "add", "name": "service/s", "color": "blue", "def": "sport:80"},
+        {"op": "upd", "name": "service/s", "conv": ["ca", "cb"]},
+        {"op": "idle"},
+        {"op": "pcap", "name": "c.pcapng", "packets": [pkt(1004, 9, "new"), pkt(1001, 10, "!")]},
+        {"op": "idle"}]}
+
+
 def scen_mark_text():
     """A mark tag whose definition is not a plain id list, then mark operations on it."""
     return {"name": "mark-text", "converters": [], "steps": [
@@ -125,7 +144,7 @@ def gen_scenario(rng, k):
             t += rng.choice([1, 2, 5])
             pk.append(pkt(cp, t, rng.choice(["foo", "bar", " MORE", "baz!", "x"])))
         npcap += 1
-        return {"op": "pcap", "name": "p%02d.pcap" % npcap, "packets": pk}
+        return {"op": "pcap", "name": "p%02d.%s" % (npcap, "pcapng" if rng.random() < 0.35 else "pcap"), "packets": pk}
     steps.append(new_pcap())
     steps.append({"op": "idle"})
     n = rng.choice([6, 10, 14])
@@ -253,6 +272,7 @@ def derive(base, metas, rng, per_file_cuts):
     """Crash states: the copies themselves plus derived ones. Returns list of dicts
     {dir, meta (index), kind, alt (index of an alternative acceptable meta or None), note}."""
     states = []
+    ncidx = [0]       # torn cache file states per scenario are bounded
     snaps = os.path.join(base, "snaps")
     crash = os.path.join(base, "crash")
     os.makedirs(crash, exist_ok=True)
@@ -262,10 +282,8 @@ def derive(base, metas, rng, per_file_cuts):
         nonlocal n
         d = os.path.join(crash, "%04d" % n)
         n += 1
-        clone(src, d)
-        if mutate:
-            mutate(d)
-        states.append({"dir": d, "meta": mi, "kind": kind, "alt": alt, "note": note})
+        # materialised later, only for the states that are kept
+        states.append({"dir": d, "meta": mi, "kind": kind, "alt": alt, "note": note, "src": src, "mutate": mutate})
 
     for mi, m in enumerate(metas):
         src = os.path.join(snaps, "%04d" % m["snap"])
@@ -292,6 +310,16 @@ def derive(base, metas, rng, per_file_cuts):
                 with open(os.path.join(d, "index", f), "r+b") as fh:
                     fh.write(b"\0" * 16)
             add(src, mi, "index-without-magic", note=f, mutate=mut2)
+        # crash inside an append to a converter cache file (the cache may lose the entry, nothing else)
+        for f in files(src, "index", ".cidx"):
+            size = os.path.getsize(os.path.join(src, "index", f))
+            if size > 16 and ncidx[0] < 4 * (per_file_cuts + 1) and m["label"] in ("idle", "gate convert.done", "gate import.done"):
+                ncidx[0] += 1
+                for c in sorted({size - 1, size - 9, max(9, size - rng.randrange(1, min(size - 8, 6000)))})[:per_file_cuts + 1]:
+                    def mutc(d, f=f, c=c):
+                        with open(os.path.join(d, "index", f), "r+b") as fh:
+                            fh.truncate(c)
+                    add(src, mi, "torn-cidx", note="%s cut at %d of %d" % (f, c, size), mutate=mutc)
         # crash inside the writing of the snapshot file
         sn = files(src, "snapshot", ".snap")
         if sn and m["label"].startswith("gate import.done"):
@@ -353,10 +381,11 @@ def recover_all(states, tag):
             note = (note + " " + n).strip()
         return res, note
     todo = [s["dir"] for s in states]
+    spec = {s["dir"]: {"dir": s["dir"], "deep": bool(s.get("deep")), "cont": s.get("cont")} for s in states}
     rounds = 0
     while todo and rounds < 6:
         rounds += 1
-        open(lf, "w").write("\n".join(todo) + "\n")
+        json.dump([spec[x] for x in todo], open(lf, "w"))
         if os.path.exists(of):
             os.remove(of)
         rc, out, _ = go_test("./internal/index/manager/", overlay(), "^TestVerifC12Recover$", {"VERIF_C12_LIST": lf, "VERIF_OUT": of}, timeout=900)
@@ -559,7 +588,10 @@ def trace_states(base, evs, rng, limit):
             if e[0] == "write" and len(e[3]) >= 2:
                 points.append((i, rng.randrange(1, len(e[3]))))
     if len(points) > limit:
-        keep = set(rng.sample(range(len(points)), limit))
+        cidx = [j for j, (i, _) in enumerate(points) if evs[i][1].endswith(".cidx")]
+        keep = set(rng.sample(cidx, min(len(cidx), limit // 5)))
+        rest = [j for j in range(len(points)) if j not in keep]
+        keep |= set(rng.sample(rest, min(len(rest), limit - len(keep))))
         points = [p for j, p in enumerate(points) if j in keep]
     want = {}
     for i, cut in points:
@@ -582,7 +614,8 @@ def trace_states(base, evs, rng, limit):
                 continue
             before = [j for j, (pos, _) in enumerate(metas) if pos < i]
             after = [j for j, (pos, _) in enumerate(metas) if pos > i]
-            states.append({"dir": d, "meta": before[-1] if before else None, "alt": alts_until_ack(metas, after), "kind": kind, "note": note})
+            states.append({"dir": d, "meta": before[-1] if before else None, "alt": alts_until_ack(metas, after), "kind": kind, "note": note,
+                           "cidx": e[1].endswith(".cidx")})
             n += 1
         apply_event(vfs, modes, e)
         if None in want.get(i, []):
@@ -591,7 +624,8 @@ def trace_states(base, evs, rng, limit):
             before = [j for j, (pos, _) in enumerate(metas) if pos < i]
             after = [j for j, (pos, _) in enumerate(metas) if pos > i]
             states.append({"dir": d, "meta": before[-1] if before else None, "alt": alts_until_ack(metas, after), "kind": "trace-after-" + e[0],
-                           "note": "after %s %s" % (e[0], " ".join(str(x) for x in e[1:3] if not isinstance(x, (bytes, bytearray))))})
+                           "note": "after %s %s" % (e[0], " ".join(str(x) for x in e[1:3] if not isinstance(x, (bytes, bytearray)))),
+                           "cidx": e[1].endswith(".cidx")})
             n += 1
     return mlist, states
 
@@ -640,6 +674,31 @@ def versions(metas):
     return v
 
 
+def stream_payload(text):
+    body = text.split("|", 1)[1] if "|" in text else ""
+    return b"".join(bytes.fromhex(c.split(":", 1)[1]) for c in body.split(",") if ":" in c)
+
+
+def conv_fails(conv, streams, when):
+    """converter output (as '<chunks> <bytes> <sha1>') against the deterministic converter of the harness"""
+    out = []
+    for key, got in sorted((conv or {}).items()):
+        cn, sid = key.split(" ")
+        text = (streams or {}).get(sid)
+        if text is None:
+            continue
+        content = (b"CONV:" + stream_payload(text) + b";") * 700
+        want = "1 %d %s" % (len(content), hashlib.sha1(b"0:" + content).hexdigest())
+        if got != want:
+            out.append(("converter-output", "%s: output of converter %s for stream %s is %s, the converter gives %s" % (when, cn, sid, got, want)))
+    return out[:3]
+
+
+def diff_keys(a, b):
+    ks = [k for k in sorted(set(a) | set(b)) if a.get(k) != b.get(k)]
+    return "; ".join("%s: %s -> %s" % (k, a.get(k), b.get(k)) for k in ks[:3])
+
+
 def judge(state, metas, rec, vers):
     """-> list of (kind, text) failures of the property for this crash state"""
     fails = []
@@ -673,6 +732,37 @@ def judge(state, metas, rec, vers):
             vs = vers.get(k, [])
             if g not in vs or vs.index(g) < vs.index(s):
                 fails.append(("stream-old", "stream %s: before the crash %s, after restart %s" % (k, s, g)))
+    if r.get("pcaps", 0) < m.get("pcaps", 0):
+        fails.append(("pcaps", "known captures: %d before the crash, %d after restart" % (m.get("pcaps", 0), r.get("pcaps", 0))))
+    # converter output of every stream matched by a tag the converter is attached to
+    fails += conv_fails(r.get("conv"), r["streams"], "after restart")
+    # an import after the restart that continues a stream extends it under its id
+    cont = state.get("cont")
+    if cont and r["settled"]:
+        if not r.get("cont_done"):
+            fails.append(("continuation", "the import after the restart did not finish"))
+        else:
+            k = str(cont["id"])
+            old, new = (r["streams"] or {}).get(k), (r.get("streams_c") or {}).get(k)
+            tail = ",0:" + cont["data"].encode().hex()
+            if old is not None and (new is None or not (new.startswith(old) and new.endswith(tail))):
+                fails.append(("continuation", "stream %s was %s after the restart; an import continuing its flow made it %s (expected it extended by %s)" % (k, old, new, tail)))
+            if state["kind"] in ("copy:idle", "closed") and set(r.get("streams_c") or {}) != set(r["streams"] or {}):
+                fails.append(("continuation", "the import continuing stream %s created other streams: ids %s -> %s" % (k, sorted(r["streams"] or {}), sorted(r.get("streams_c") or {}))))
+    # second, clean restart
+    if state.get("deep") and r.get("new2"):
+        if r["new2"] != "ok":
+            fails.append(("second-restart", "second manager.New: " + r["new2"]))
+        else:
+            if tagview(r["tags2"]) != got:
+                fails.append(("second-restart", "tags after the second restart %s, after the first %s" % (tagview(r["tags2"]), got)))
+            ref = r.get("streams_c") if r.get("cont_done") else r["streams"]
+            if (r.get("streams2") or {}) != (ref or {}):
+                fails.append(("second-restart", "streams after the second restart differ: %s" % diff_keys(ref or {}, r.get("streams2") or {})))
+            if r.get("pcaps2", 0) < r.get("pcaps", 0):
+                fails.append(("second-restart", "known captures: %d after the first restart, %d after the second" % (r.get("pcaps", 0), r.get("pcaps2", 0))))
+            if r.get("settled2"):
+                fails += conv_fails(r.get("conv2"), r.get("streams2"), "after the second restart")
     # convergence: settled, every tag decided, matches = a fresh evaluation of the definition
     if not r["settled"]:
         fails.append(("not-settled", "background jobs did not settle after restart"))
@@ -689,6 +779,36 @@ def judge(state, metas, rec, vers):
                 if a != b:
                     fails.append(("matches", "tag %s (%s): matches %s, fresh evaluation %s" % (t["name"], t["def"], a, b)))
     return fails
+
+
+def conv_expected(text):
+    content = (b"CONV:" + stream_payload(text) + b";") * 700
+    return "1 %d %s" % (len(content), hashlib.sha1(b"0:" + content).hexdigest())
+
+
+def stale_conv_shape(state, metas, rec, vers, fails):
+    """The known finding: the crash hit an import after its index file was finalized but before its
+    completion ran (which invalidates the converter caches).  After the restart the new version of the
+    stream is visible, the cache still holds the output for the previous version and nothing ever
+    notices.  Shape: only converter-output failures; every wrong output is the correct output of an OLDER
+    version of that stream; a readable index file on disk was not yet published in memory."""
+    if not fails or any(k != "converter-output" for k, _ in fails) or state["meta"] is None or rec is None:
+        return False
+    m = metas[state["meta"]]
+    on_disk = {f["name"] for f in (rec.get("begin", {}).get("index_files") or []) if f["ok"]}
+    if not (on_disk - set(m.get("indexes") or [])):
+        return False
+    r = rec["end"]
+    for conv, streams in ((r.get("conv"), r["streams"]), (r.get("conv2"), r.get("streams2"))):
+        for key, got in (conv or {}).items():
+            cn, sid = key.split(" ")
+            text = (streams or {}).get(sid)
+            if text is None or got == conv_expected(text):
+                continue
+            older = [conv_expected(v) for v in vers.get(sid, []) if v != text]
+            if got not in older:
+                return False
+    return True
 
 
 def order_defect_shape(state, metas, rec):
@@ -784,7 +904,7 @@ def main(tier, seed, replay=None):
     if replay:
         scens = [json.load(open(replay))["scenario"]]
     else:
-        scens = load_corpus() + [scen_tags()]      # corpus/C12: merge-shadow, mark-text
+        scens = load_corpus() + [scen_tags(), scen_converters()]      # corpus/C12: merge-shadow, mark-text
         nrand = 8 if tier == "quick" else 60
         scens += [gen_scenario(rng, k) for k in range(nrand)]
     cuts = 2 if tier == "quick" else 6
@@ -803,7 +923,7 @@ def main(tier, seed, replay=None):
         all_states += states
     # the same scenarios (a few of them in the quick tier) under a system call trace: one crash state
     # after every file operation and inside writes, as the implementation really performs them
-    tscens = scens if (replay or tier != "quick") else scens[:4]       # corpus + tags + first random
+    tscens = scens if (replay or tier != "quick") else scens[:4]       # corpus + tags + converters
     for (scen, (base, evs, note)) in zip(tscens, run_traced(tscens)):
         if note:
             notes.append("%s: %s" % (scen["name"], note))
@@ -812,11 +932,27 @@ def main(tier, seed, replay=None):
             notes.append("%s: the system call trace yielded no file operation (strace output not understood)" % scen["name"])
         per.append((scen, base, metas, states))
         all_states += states
+    for scen, base, metas, states in per:
+        tmax = max([p["t"] for st in scen["steps"] for p in st.get("packets", [])] or [0])
+        for s in states:
+            m = metas[s["meta"]] if s["meta"] is not None else None
+            ids = sorted((m or {}).get("streams") or {}, key=int)
+            if ids:
+                # a packet that continues the flow of the oldest visible stream
+                flow = m["streams"][ids[0]].split("|", 1)[0]
+                if ">" in flow:
+                    c, sv = flow.split(">")
+                    s["cont"] = {"c": c, "s": sv, "t": tmax + 1, "data": "ZZ", "id": int(ids[0])}
+            s["deep"] = (tier != "quick") or s["kind"] in ("copy:idle", "copy:gate import.done", "copy:gate convert.done", "copy:gate convert.start", "copy:gate merge.done", "torn-cidx") \
+                or bool(s.get("cidx")) or rng.random() < 0.1
+            if not s["deep"]:
+                s.pop("cont", None)
     if tier == "quick" and not replay and len(all_states) > QUICK_STATES:
         # fixed budget for the quick tier (recovery costs ~25 ms per state): keep every copy and every
         # traced state of the corpus scenarios, sample the rest
-        keep = [s for s in all_states if s["kind"].startswith("copy")]
-        rest = [s for s in all_states if not s["kind"].startswith("copy")]
+        prio = lambda s: s["kind"].startswith("copy") or s["kind"] == "torn-cidx" or s.get("cidx")
+        keep = [s for s in all_states if prio(s)]
+        rest = [s for s in all_states if not prio(s)]
         rng.shuffle(rest)
         chosen = set(id(s) for s in keep + rest[:max(0, QUICK_STATES - len(keep))])
         for s in all_states:
@@ -824,6 +960,13 @@ def main(tier, seed, replay=None):
                 shutil.rmtree(s["dir"], ignore_errors=True)
         all_states = [s for s in all_states if id(s) in chosen]
         per = [(scen, base, metas, [s for s in states if id(s) in chosen]) for scen, base, metas, states in per]
+    for st in all_states:
+        if "src" in st:
+            clone(st["src"], st["dir"])
+            if st["mutate"]:
+                st["mutate"](st["dir"])
+            st.pop("src")
+            st.pop("mutate")
     log("C12: %d crash states prepared %.0fs" % (len(all_states), time.time() - t0))
     recs, rnote = recover_all(all_states, "all")
     log("C12: recovered %.0fs" % (time.time() - t0))
@@ -852,6 +995,12 @@ def main(tier, seed, replay=None):
                         reported.add(KNOWN_ORDER)
                     known_hits.append(scen["name"])
                     continue
+            if stale_conv_shape(s, metas, rec, vers, fails) and KNOWN_STALE in known_ids:
+                if KNOWN_STALE not in reported:
+                    print("KNOWN-FINDING: property=C12 id=%s scenario=%s %s" % (KNOWN_STALE, scen["name"], fails[0][1]), flush=True)
+                    reported.add(KNOWN_STALE)
+                known_hits.append(scen["name"])
+                continue
             key = (scen["name"], fails[0][0] if fails else "model")
             if key in reported:
                 continue
